@@ -56,7 +56,7 @@ PID = "C18"
 PROOF_FILES = ["theories/Props/C18.v", "theories/Checker/Kkt.v", "theories/Checker/KktZ.v",
                "theories/Spec/ConvexHull.v", "theories/Proofs/SimplexTrace.v",
                "theories/Proofs/SimplexLine.v", "theories/Proofs/SimplexTriangle.v",
-               "theories/Proofs/SimplexTetra.v", "theories/Proofs/SimplexCara.v", "theories/Proofs/SimplexTetraFlat.v", "theories/Proofs/SimplexCollinear.v",
+               "theories/Proofs/SimplexTetra.v", "theories/Proofs/SimplexCara.v", "theories/Proofs/SimplexTetraFlat.v", "theories/Proofs/SimplexCollinear.v", "theories/Proofs/SimplexTetraFlatEps.v",
                "theories/Proofs/SimplexOrig.v", "theories/Proofs/SimplexOrigCand.v", "theories/Proofs/SimplexOrigFace.v",
                "theories/Proofs/SimplexOrigTetra.v", "theories/Proofs/SimplexLattice.v",
                "theories/Proofs/SimplexLattice4.v", "theories/Proofs/SimplexRefuted.v"] + \
@@ -573,7 +573,18 @@ def evaluate(R, cases, results, tag, per_file):
         jobs.append((c["pts"], r, perts))
     with ProcessPoolExecutor(max_workers=4) as ex:   # exact-rational witnesses only (a few CPU seconds)
         prepared = list(ex.map(prepare, jobs, chunksize=64))
-    outs = cm.coq_eval_lines(PID, HEADER, [p[0] for p in prepared], tag=tag, per_file=per_file)
+    try:
+        outs = cm.coq_eval_lines(PID, HEADER, [p[0] for p in prepared], tag=tag, per_file=per_file)
+    except RuntimeError as ex:
+        # somebody rebuilt a library this development depends on while we were running: the compiled
+        # files are then mutually inconsistent, which is an environment problem, not a verdict.
+        # Rebuild our targets once and evaluate again.
+        if "inconsistent assumptions" not in str(ex):
+            raise
+        ok, log = cm.coq_build(BUILD_TARGETS)
+        R.notes.append("Coq libraries were rebuilt by another process during the run; rebuilt C18's targets and re-evaluated"
+                       + ("" if ok else f" (rebuild failed: {log[-300:]})"))
+        outs = cm.coq_eval_lines(PID, HEADER, [p[0] for p in prepared], tag=tag, per_file=per_file)
     ev = []
     for (expr, info), o in zip(prepared, outs):
         val = parse_coq_value(o)
@@ -864,7 +875,7 @@ def _cleanup(uid):
             pass
 
 
-COQCHK_LIBS = ["D3.Proofs.SimplexOrigTetra", "D3.Proofs.SimplexOrigFace", "D3.Proofs.SimplexTetraFlat", "D3.Proofs.SimplexCollinear",
+COQCHK_LIBS = ["D3.Proofs.SimplexOrigTetra", "D3.Proofs.SimplexOrigFace", "D3.Proofs.SimplexTetraFlatEps", "D3.Proofs.SimplexCollinear",
                "D3.Proofs.SimplexLine", "D3.Checker.KktZ", "D3.Checker.Kkt", "D3.Proofs.SimplexTrace"]
 
 
